@@ -56,6 +56,14 @@ theorem decode_injective (E M b₁ b₂ : Nat) (h₁ : b₁ < 2 ^ (1 + E + M)) (
   unfold reprint at e₁ e₂
   rw [h] at e₁; rw [← e₁, e₂]
 
+/-- x86_fp80 (0xK), EVERY 80-bit pattern, canonical or not: the printed literal, read again, denotes the value the pattern was read as (a pseudo-denormal is
+    printed in its normalised encoding, exactly as LLVM prints it; an unnormal, a pseudo-infinity and a pseudo-NaN are NaNs, as LLVM reads them) -/
+theorem fp80_every_encoding_value_preserved (se m : Nat) :
+    decode80 (encode80 (decode80 se m)).1 (encode80 (decode80 se m)).2 = decode80 se m := reprint80_value se m
+
+/-- an unnormal is read as a NaN of its sign (not as the finite number its fields would spell); a pseudo-denormal keeps its value under the exponent field 1 -/
+example : decode80 0x3FFF 1 = .nan false ∧ decode80 0x8001 0 = .nan true ∧ encode80 (decode80 0 (2 ^ 63)) = (1, 2 ^ 63) := by decide
+
 /-- x86_fp80 (0xK): canonical non-NaN encodings are preserved exactly -/
 theorem fp80_bits_preserved (se m : Nat) (hc : canonical80 se m = true) (hn : isNaN80 se m = false) :
     encode80 (decode80 se m) = (se, m) := reprint80_id se m hc hn
